@@ -16,14 +16,21 @@
 (* vacuous (MC_AtomFlow_norerand.cfg must violate it).                     *)
 (***************************************************************************)
 EXTENDS Integers, Sequences, FiniteSets, TLC
-CONSTANTS Channels, MaxPays, RERANDOMIZE
+CONSTANTS Channels, MaxPays, RERANDOMIZE,
+          LEAK     \* spec mutant: the pay message also carries the NEW state's nonce (NoSecretLeak must fail)
 
 VARIABLES stage,     \* [Channels -> "none","requested","ready","started","locked","closed"]
           k,         \* [Channels -> current state index]
           seen,      \* every atom the merchant has seen (its own messages and parameters included)
           fresh,     \* counter for fresh randomisers / proof randomness
-          lastMsg    \* atoms of the last customer message (for the invariant)
-vars == <<stage, k, seen, fresh, lastMsg>>
+          lastMsg,   \* atoms of the last customer message (for the invariant)
+          allowed    \* the secrets that message reveals BY DESIGN
+vars == <<stage, k, seen, fresh, lastMsg, allowed>>
+
+(* the secret scalars a customer at state index i of channel c holds: nonce and revocation pair of every *)
+(* state it knows (current and, during a payment, the next one), and the blinding factors of its requests *)
+Secrets(c, i) == {<<"nonce", c, j>> : j \in {i, i + 1}} \cup {<<"lock", c, j>> : j \in {i, i + 1}}
+                 \cup {<<"secret", c, j>> : j \in {i, i + 1}} \cup {<<"rlbf", c, i>>, <<"bf", c, i>>, <<"bf", c, i + 1>>}
 
 Sig(typ, ch, i, rnd, bl) == {<<"s1", typ, ch, i, rnd>>, <<"s2", typ, ch, i, rnd, bl>>}
 Digits == {<<"s1", "digit", 0, d, 0>> : d \in 0..1} \cup {<<"s2", "digit", 0, d, 0, "plain">> : d \in 0..1}
@@ -31,35 +38,39 @@ Proof(ch, n) == {<<"prf", ch, n, i>> : i \in 1..2}
 Rnd == IF RERANDOMIZE THEN fresh + 1 ELSE 0
 
 Init == /\ stage = [c \in Channels |-> "none"] /\ k = [c \in Channels |-> 0]
-        /\ seen = Digits /\ fresh = 0 /\ lastMsg = {}
+        /\ seen = Digits /\ fresh = 0 /\ lastMsg = {} /\ allowed = {}
 
 Send(atoms) == lastMsg' = atoms /\ seen' = seen \cup atoms
 (* establish proof, then the merchant's closing signature and pay token for state 0 *)
 Establish(c) == /\ stage[c] = "none"
-                /\ Send(Proof(c, fresh + 1))
+                /\ Send(Proof(c, fresh + 1)) /\ allowed' = {}
                 /\ fresh' = fresh + 1
                 /\ stage' = [stage EXCEPT ![c] = "requested"] /\ UNCHANGED k
 MerchantReplies(c) == /\ stage[c] = "requested"
                       /\ seen' = seen \cup Sig("close", c, 0, 0, "blinded") \cup Sig("token", c, 0, 0, "blinded")
-                      /\ stage' = [stage EXCEPT ![c] = "ready"] /\ UNCHANGED <<k, fresh, lastMsg>>
+                      /\ stage' = [stage EXCEPT ![c] = "ready"] /\ UNCHANGED <<k, fresh, lastMsg, allowed>>
 (* pay proof: old nonce, re-randomised + blinded pay token, re-randomised digit signatures, fresh proof atoms *)
 Pay(c) == /\ stage[c] = "ready" /\ k[c] < MaxPays
           /\ Send({<<"nonce", c, k[c]>>} \cup Sig("token", c, k[c], Rnd, "proofblind") \cup Proof(c, fresh + 1)
-                  \cup {<<"s1", "digit", 0, 1, Rnd>>, <<"s2", "digit", 0, 1, Rnd, "proofblind">>})
+                  \cup {<<"s1", "digit", 0, 1, Rnd>>, <<"s2", "digit", 0, 1, Rnd, "proofblind">>}
+                  \cup (IF LEAK THEN {<<"nonce", c, k[c] + 1>>} ELSE {}))
+          /\ allowed' = {<<"nonce", c, k[c]>>}                       \* the old nonce is revealed by design
           /\ fresh' = fresh + 1
           /\ stage' = [stage EXCEPT ![c] = "started"] /\ UNCHANGED k
 MerchantAllows(c) == /\ stage[c] = "started"
                      /\ seen' = seen \cup Sig("close", c, k[c] + 1, 0, "blinded")
-                     /\ stage' = [stage EXCEPT ![c] = "locking"] /\ UNCHANGED <<k, fresh, lastMsg>>
+                     /\ stage' = [stage EXCEPT ![c] = "locking"] /\ UNCHANGED <<k, fresh, lastMsg, allowed>>
 (* lock message: the old revocation pair and the blinding factor of its commitment *)
 Lock(c) == /\ stage[c] = "locking"
            /\ lastMsg' = {<<"lock", c, k[c]>>, <<"secret", c, k[c]>>, <<"rlbf", c, k[c]>>}
+           /\ allowed' = lastMsg'                                     \* the old pair and its blinding factor
            /\ seen' = seen \cup lastMsg' \cup Sig("token", c, k[c] + 1, 0, "blinded")    \* followed by the merchant's new pay token
            /\ k' = [k EXCEPT ![c] = @ + 1]
            /\ stage' = [stage EXCEPT ![c] = "ready"] /\ UNCHANGED fresh
 (* closing message from any closable stage: re-randomised closing signature, lock of the closing state *)
 Close(c) == /\ stage[c] \in {"ready", "started", "locking"}
             /\ Send(Sig("close", c, k[c], Rnd, "plain") \cup {<<"lock", c, k[c]>>})
+            /\ allowed' = {<<"lock", c, k[c]>>}                       \* the lock of the closing state
             /\ fresh' = fresh + 1
             /\ stage' = [stage EXCEPT ![c] = "closed"] /\ UNCHANGED k
 Next == \E c \in Channels : Establish(c) \/ MerchantReplies(c) \/ Pay(c) \/ MerchantAllows(c) \/ Lock(c) \/ Close(c)
@@ -67,4 +78,6 @@ Spec == Init /\ [][Next]_vars
 
 (* no atom of a customer message was in the merchant's view before it was sent *)
 NoReuse == [][lastMsg' # lastMsg => lastMsg' \cap seen = {}]_vars
+(* no secret the customer holds occurs in a message unless the step reveals it by design *)
+NoSecretLeak == \A c \in Channels : (lastMsg \cap Secrets(c, k[c])) \subseteq allowed
 =============================================================================
